@@ -13,7 +13,7 @@ LEVEL_TEXT = ("Round trip decode -> encode through the public API for all encoda
               "Exploration: wide fields are sampled at boundaries and random raws only.")
 TECHNIQUE = "round-trip property (decode then encode) with exhaustive per-field raw sweeps and Hypothesis class combinations"
 RULE = ("encodable definitions x decoder-accepted payloads built from in-range classes (range ends, zero, not-available, just-in) and "
-        "exhaustive raw sweeps of narrow fields with the other fields benign; oracle: bits of every field equal (<=48 bits exact; wider within "
+        "exhaustive raw sweeps of narrow fields with the other fields benign, on an encoder instance that has a history of the PGN's other definitions; oracle: bits of every field equal (<=48 bits exact; wider within "
         "1+|raw|*2^-50; FLOAT bit-exact unless non-finite), payload length = database Length; non-trivial = a boundary class in the payload "
         "or a case of an exhaustive sweep; distinct = (definition, payload)")
 ASSUMPTIONS = [
